@@ -125,13 +125,16 @@ REF_KINDS = {
     "array_obj": {"type": "array", "items": {"type": "object", "properties": {"q": {"type": "string"}}}},
     "str": {"type": "string"},
     "date": {"type": "string", "format": "date"},
+    # counts of zero and one: an object that declares no property at all (a marker / free-form base), one with a single optional property
+    "empty_object": {"type": "object", "description": "marker"},
+    "one_prop": {"type": "object", "properties": {"only": {"type": "string"}}},
     "nested": {"type": "object", "properties": {"inner": {"type": "object", "properties": {"v": {"type": "number"}}}}},
     # refers to the shared component Node, which refers to itself (the inline copy still names Node by reference)
     # refers to itself (the inline copy still names the component Comp by reference)
     "selfref": {"type": "object", "properties": {"v": {"type": "integer"}, "next": {"$ref": R + "Comp"}, "kids": {"type": "array", "items": {"$ref": R + "Comp"}}}},
 }
 REF_SAMPLES = {"object": [{"z": 1}, {"z": 2, "day": "2020-01-02", "x": 1}], "enum_str": ["a", "b"], "enum_int": [1, -2],
-               "array_obj": [[], [{"q": "s"}, {}]], "str": ["s"], "date": ["2020-01-02"], "nested": [{}, {"inner": {"v": 1.5}}],
+               "array_obj": [[], [{"q": "s"}, {}]], "str": ["s"], "date": ["2020-01-02"], "empty_object": [{}, {"x": 1}], "one_prop": [{}, {"only": "o"}], "nested": [{}, {"inner": {"v": 1.5}}],
                "selfref": [{"v": 1, "kids": []}, {"v": 1, "next": {"v": 2, "kids": [], "next": {"kids": []}}, "kids": [{"v": 3, "kids": []}]}]}
 
 
